@@ -304,6 +304,7 @@ func (self *PipelineRetains) format(printer *printer) {
 	printer.mustWriteString(INDENT)
 	printer.mustWriteString("retain (\n")
 	for _, ref := range self.Refs {
+		printer.printComments(ref.getNode(), INDENT+INDENT)
 		printer.mustWriteString(INDENT)
 		printer.mustWriteString(INDENT)
 		ref.format(printer, INDENT+INDENT)
